@@ -118,7 +118,7 @@ func runC13(p *core.Prog, r *core.Result) {
 			r.Check(notDry(c.(ssa.Instruction)), "R13.1", "dawn.(*runTarget).Evaluate#effect-via:"+fname(cal), p.InstrPos(c.(ssa.Instruction)), "on the not-dry-run edge", fmt.Sprintf("%s (reaches %s) can be called during a dry run", fname(cal), ms[0].Callee))
 		}
 	}
-	r.Floor("R13.1", n, 3, "effectful call sites in Evaluate")
+	r.Floor("R13.1", n, 1, "effectful call sites in Evaluate")
 	// upToDate / info / dependencies implementations reach no mutator
 	for _, meth := range []string{"upToDate", "info", "dependencies", "Doc", "Label", "Project"} {
 		for _, f := range targetImpls(p, meth) {
@@ -146,7 +146,7 @@ func runC13(p *core.Prog, r *core.Result) {
 			r.Check(ok && b, "R13.2", fmt.Sprintf("%s#changed-on-success-%d", fname(f), i+1), p.InstrPos(ret), "a successful evaluation reports changed=true, which is what the dry run assumes", "a successful evaluation may report changed=false while a dry run always assumes true: the dry run predicts rebuilds of dependents that the real build does not perform")
 		}
 	}
-	r.Floor("R13.2", succeeding, 2, "successful returns of Target.evaluate implementations")
+	r.Floor("R13.2", succeeding, 1, "successful returns of Target.evaluate implementations")
 	// dry branch: store true to changed + Succeeded
 	okDry := false
 	core.Instrs(m.Fn, func(in ssa.Instruction) {
@@ -464,7 +464,7 @@ func runC03(p *core.Prog, r *core.Result) {
 			}
 		}
 	}
-	r.Floor("R3.2", nW, 5, "file-system writers of build state in package dawn")
+	r.Floor("R3.2", nW, 2, "file-system writers of build state in package dawn")
 
 	// ---- R3.3 / R3.4
 	checkRecordWrites(p, r, m, "R3.3", "R3.4")
@@ -599,5 +599,5 @@ func checkBuildCommandsNoIndex(p *core.Prog, r *core.Result) {
 		}
 		r.Check(!b, "R3.6", fname(f)+"#index-arg", p.InstrPos(c.(ssa.Instruction)), "a command that builds loads the project fully (index=false)", "a command that builds prefers the index: targets are index stubs that cannot execute and source changes are not seen")
 	}
-	r.Floor("R3.6", n, 2, "commands that load a project and build")
+	r.Floor("R3.6", n, 1, "commands that load a project and build")
 }
